@@ -28,7 +28,15 @@ PREFIXES = [("# Filter: ", "# Description: "), ("#F:", "#D:"), ("# name = ", "# 
             ("# 100% rule: ", "# %s about: "), ("#%% ", "#%(name)s "), ("# {} ", "# {0}{name} "), ("# %d%% ", "# %(description)s")]
 
 
+LOOKALIKE_NAMES = ["Unnamed rule 7", "Unnamed rule 1", "Unnamed rule 2", "Unnamed rule", "unnamed rule 3", "Unnamed rule 01"]
+
+
 def plain_line(r, prefixes, used):
+    # names that look like the ones the loader invents for rules without a marker: given by the caller they are names like any other
+    if r.random() < 0.08:
+        cand = [x for x in LOOKALIKE_NAMES if x not in used]
+        if cand:
+            return r.choice(cand)
     while True:
         s = "".join(r.choice(NAME_PIECES) for _ in range(r.randint(1, 4))).strip()
         if s and s not in used and all(p.strip() not in "# " + s and not ("# " + s).startswith(p) and p[2:] not in s for p in prefixes) and "\n" not in s:
